@@ -147,6 +147,43 @@ Definition default_environment (c : cfg) (launch : map) : map :=
 Definition LBL_DEFAULTS : string := "DEFAULTS".
 Definition PATH_VARS : list string := ["PATH"; "PYTHONPATH"; "PYTHONHOME"; "LD_LIBRARY_PATH"].
 
+(* names listed by the DEFAULTS key of an environment: environment[DEFAULTS].split(':') *)
+Definition defaults_names (env : map) : list string :=
+  match lookup LBL_DEFAULTS env with
+  | None => []
+  | Some d => split_on ":" d
+  end.
+
+(* if not environment_name: environment_name = 'environment'; environment_name = environment_name.lower() *)
+Definition norm_name (name : option string) : string :=
+  lower (match name with
+         | None => "environment"
+         | Some "" => "environment"
+         | Some n => n
+         end).
+
+(* the environment selected by name, before system variables / DEFAULTS / expansion *)
+Definition selected (c : cfg) (launch : map) (name : option string) : res map :=
+  let n := norm_name name in
+  if String.eqb n "" || String.eqb n "environment" then Ok (default_environment c launch)
+  else if String.eqb n "none" then Ok []
+  else match get_environment c n with
+       | Ok e => Ok e
+       | ErrUnknown => if is_default c then ErrUnknown else get_environment_default c n
+       end.
+
+(* the interpreter branch of environmentForNode:
+   {key: active_shell[key] for key in copy_from if key in active_shell and key not in env} *)
+Fixpoint interp_vars (vars : list string) (launch env : map) : map :=
+  match vars with
+  | [] => []
+  | k :: r =>
+      match lookup k launch with
+      | Some v => if mem k env then interp_vars r launch env else (k, v) :: interp_vars r launch env
+      | None => interp_vars r launch env
+      end
+  end.
+
 Section Expansion.
   Variable tsub : map -> string -> string.
   Variable osexp : map -> string -> string.
@@ -168,16 +205,10 @@ Section Expansion.
         end
     end.
 
-  Definition defaults_names (env : map) : list string :=
-    match lookup LBL_DEFAULTS env with
-    | None => []
-    | Some d => split_on ":" d
-    end.
-
   Definition defaults_step (launch env : map) : map :=
     match lookup LBL_DEFAULTS env with
     | None => env
-    | Some d => remove LBL_DEFAULTS (apply_defaults (split_on ":" d) launch env)
+    | Some d => remove LBL_DEFAULTS (apply_defaults (defaults_names env) launch env)
     end.
 
   (* {key: os.path.expandvars(expand_vars(environment[key], environment)) for key in environment
@@ -186,46 +217,17 @@ Section Expansion.
     List.map (fun kv => (fst kv, osexp launch (tsub env (snd kv))))
              (filter (fun kv => negb (String.eqb (snd kv) "")) env).
 
-  (* the environment selected by name, before system variables / DEFAULTS / expansion:
-     inl tt = the "none" environment *)
-  Definition norm_name (name : option string) : string :=
-    lower (match name with
-           | None => "environment"
-           | Some "" => "environment"
-           | Some n => n
-           end).
-
-  Definition selected (c : cfg) (launch : map) (name : option string) : res map :=
-    let n := norm_name name in
-    if String.eqb n "" || String.eqb n "environment" then Ok (default_environment c launch)
-    else if String.eqb n "none" then Ok []
-    else match get_environment c n with
-         | Ok e => Ok e
-         | ErrUnknown => if is_default c then ErrUnknown else get_environment_default c n
-         end.
-
   (* environmentWithName(name, expand, remove_defaults_key=True) *)
   Definition env_with_name (c : cfg) (launch : map) (name : option string) (expand : bool) : res map :=
     match selected c launch name with
     | ErrUnknown => ErrUnknown
     | Ok e =>
-        let env := update (sysv c) e in
-        let env := defaults_step launch env in
+        let env := defaults_step launch (update (sysv c) e) in
         Ok (if expand then expand_step launch env else env)
     end.
 
-  (* the interpreter branch of environmentForNode *)
-  Fixpoint interp_vars (vars : list string) (launch env : map) : map :=
-    match vars with
-    | [] => []
-    | k :: r =>
-        match lookup k launch with
-        | Some v => if mem k env then interp_vars r launch env else (k, v) :: interp_vars r launch env
-        | None => interp_vars r launch env
-        end
-    end.
-
-  (* environmentForNode(node): name = command.environment of the component, interp = bool(command.interpreter) *)
+  (* environmentForNode(node): name = command.environment of the component,
+     interp = bool(command.interpreter) *)
   Definition env_for_node (c : cfg) (launch : map) (name : option string) (interp : bool) : res map :=
     match env_with_name c launch name true with
     | ErrUnknown => ErrUnknown
